@@ -700,8 +700,10 @@ fn fimg_to_t(f: &FileImage) -> T {
 
 fn mutate_tree(rng: &mut Rng, t: &mut T, sel: usize) -> &'static str {
     let T::O(kvs) = t else { return "none" };
-    match sel % 12 {
+    match sel % 14 {
         0 | 1 => "none",
+        12 => { let v = [0usize, 1, 0x10000, 0x10001, 70000][rng.below(5)]; kvs[2].1 = T::N(v); "chunk-len-range" }
+        13 => { if let T::O(cs) = &mut kvs[13].1 { let k = [0xffffffusize, 0x1000000, 0xfffffe][rng.below(3)]; cs.push((k.to_string(), T::S("00".to_string()))); } "chunk-index-range" }
         2 => { let p = rng.below(kvs.len()); kvs.remove(p); "drop-field" }
         3 => { let p = rng.below(kvs.len()); kvs[p].1 = T::N(7); "field-number" }
         4 => { let p = rng.range(3, 11); if let T::S(s) = &mut kvs[p].1 { s.push('A'); } "hex-odd" }
@@ -713,6 +715,12 @@ fn mutate_tree(rng: &mut Rng, t: &mut T, sel: usize) -> &'static str {
         10 => { if let T::O(cs) = &mut kvs[13].1 { if !cs.is_empty() { if let T::S(s) = &mut cs[0].1 { s.push('G'); } } } "chunk-hex-bad" }
         _ => { kvs[13].1 = T::A(vec![]); "chunks-array" }
     }
+}
+
+/// `l` = `from_json` panics on a malformed version string and checks no ranges (snapshot),
+/// `b` = malformed version / out-of-range chunk length or index are errors (after the C12 repairs)
+fn json_variant() -> char {
+    match guarded(|| FileImage::from_json("{\"fimg_version\":\"abc\"}")) { Err(_) => 'l', _ => 'b' }
 }
 
 fn case_json_fimg(ctx: &mut Ctx, idx: usize, rng: &mut Rng, sel: usize) {
@@ -731,7 +739,7 @@ fn case_json_fimg(ctx: &mut Ctx, idx: usize, rng: &mut Rng, sel: usize) {
             (tree, back.to_string())
         }
     };
-    ctx.out.q(&format!("c13 fimg2json {} {} {} {} {} {} {} {} {} {} {} {} {} {}", hx(f.fimg_version.as_bytes()), hx(f.file_system.as_bytes()), f.chunk_len,
+    ctx.out.q(&format!("c13 fimg2json {} {} {} {} {} {} {} {} {} {} {} {} {} {} {}", json_variant(), hx(f.fimg_version.as_bytes()), hx(f.file_system.as_bytes()), f.chunk_len,
         hx(&f.eof), hx(&f.fs_type), hx(&f.aux), hx(&f.access), hx(&f.accessed), hx(&f.created), hx(&f.modified), hx(&f.version), hx(&f.min_version),
         hx(f.full_path.as_bytes()), chunks), &format!("{} back={}", digest(tree_s.as_bytes()), back));
     // the property: a file image written as JSON parses back to an equal value (format 2.1 and later, or
@@ -747,7 +755,7 @@ fn case_json_fimg(ctx: &mut Ctx, idx: usize, rng: &mut Rng, sel: usize) {
     let m = mutate_tree(rng, &mut t, sel / 3);
     let text = json::stringify(t_to_json(&t));
     let r = match guarded(|| FileImage::from_json(&text)) { Err(_) => "panic".to_string(), Ok(Err(_)) => "err".to_string(), Ok(Ok(g)) => format!("ok {}", full_digest(&g)) };
-    ctx.out.q(&format!("c13 json2fimg {}", t_render(&t)), &r);
+    ctx.out.q(&format!("c13 json2fimg {} {}", json_variant(), t_render(&t)), &r);
     ctx.out.count(&format!("json-fimg:{}", m));
     ctx.out.case(case.as_bytes(), !keys.is_empty());
     ctx.out.sample(&case);
